@@ -18,6 +18,7 @@ Print Assumptions C14_flags.
 (* "never later": the vector given to reflect.Call is the expected binding, it fits the function's
    parameters one by one (so Call cannot panic), and all passed values are of supported types *)
 Theorem C14_faithful_call : forall s args hc ns,
+  forallb wf_value args = true ->
   checkF (Func s) args = Good hc ns ->
   call_args hc ns args = expected_binding s args /\
   fits (ins s) (vtail s) (call_args hc ns args) = true /\
@@ -33,6 +34,7 @@ Print Assumptions C14_error_unchanged.
 
 (* two accepted mg.F values of one function have the same id iff their argument lists are equal *)
 Theorem C14_identity : forall s a b hc ns hc' ns',
+  forallb wf_value a = true -> forallb wf_value b = true ->
   checkF (Func s) a = Good hc ns -> checkF (Func s) b = Good hc' ns' ->
   (fn_id a = fn_id b <-> a = b).
 Proof. exact identity. Qed.
@@ -40,6 +42,7 @@ Print Assumptions C14_identity.
 
 (* ... and the registry key separates functions by name *)
 Theorem C14_key : forall s f g a b hc ns hc' ns',
+  forallb wf_value a = true -> forallb wf_value b = true ->
   checkF (Func s) a = Good hc ns -> checkF (Func s) b = Good hc' ns' ->
   (once_key f a = once_key g b <-> f = g /\ a = b).
 Proof. exact key_iff. Qed.
